@@ -75,6 +75,9 @@ def _len(eng, a):
 
 
 def _sorted(eng, it, key=None, reverse=False):
+    if isinstance(reverse, Sym):
+        reverse = eng.truth(reverse)
+    reverse = bool(reverse)
     if isinstance(it, CardSet):
         # Card order agrees with the card index (checked by C15): the sorted list is the universe
         # order restricted to the set; represented as a SortedCards view used by joins/filters
